@@ -1,6 +1,7 @@
 (* pqref commands of the dtype-prediction model (property C17). *)
 From Coq Require Import NArith ZArith List String Bool.
 From Pq Require Import Base.Bytes Impl.Dtypes Extract.Sx.
+From Pq Require Impl.Partition Impl.PartNames.
 Import ListNotations.
 Open Scope string_scope.
 
@@ -179,7 +180,26 @@ Definition h_frame_columns (a : list sx) : sx :=
   | _ => err "arity"
   end.
 
+(* (partition_names (#cat ...) NRG (#meta_name ...)) -> (#name ...): Impl/PartNames.partition_names on a handle whose cats have
+   these keys (in order), NRG row groups, and whose pandas metadata records these partition columns *)
+Definition str_of_bytes (b : bytes) : Partition.str := map Ascii.ascii_of_N b.
+Definition bytes_of_str (s : Partition.str) : bytes := map Ascii.N_of_ascii s.
+Definition h_partition_names (a : list sx) : sx :=
+  match a with
+  | [keys; nrg; meta] =>
+    match as_list_of as_bytes keys, as_nat nrg, as_list_of as_bytes meta with
+    | Some ks, Some n, Some m =>
+      match PartNames.partition_names unit unit unit
+              (Partition.Ok (Partition.Hive, map (fun k => (str_of_bytes k, [])) ks)) n (map str_of_bytes m) with
+      | Partition.Ok names => slist SB (map bytes_of_str names)
+      | _ => err "error"
+      end
+    | _, _, _ => err "args"
+    end
+  | _ => err "arity"
+  end.
+
 Definition table : list (string * handler) :=
   [("typemap", h_typemap); ("predict", h_predict); ("realise", h_realise); ("null_evidence", h_null_evidence);
    ("check_categories", h_check_categories); ("count", h_count);
-   ("get_index", h_get_index); ("frame_columns", h_frame_columns)].
+   ("get_index", h_get_index); ("frame_columns", h_frame_columns); ("partition_names", h_partition_names)].
